@@ -402,7 +402,8 @@ def build_program(stmts):
         if s[0] == "print":
             for it in s[2]:
                 if it[0] == "f":
-                    lines.append("FUNCTION " + it[1])
+                    # STATIC procedures are entered through another instruction
+                    lines.append("FUNCTION " + it[1] + (" STATIC" if sum(map(ord, it[1])) % 3 == 0 else ""))
                     lines.append("  " + print_stmt(it[3][1], it[3][2]))
                     lines.append("  %s = %d" % (it[1], it[2]))
                     lines.append("END FUNCTION")
